@@ -675,9 +675,88 @@ def patched_sendfile_layer(ctx):
                                           {"kind": "eventlet-sendfile", "fsize": fsize, "offset": offset, "count": count, "plan": plan})
     ctx.log("eventlet sendfile replacement: %d failures" % nbad)
 
+def real_gthread_big_responses():
+    """The REAL ThreadWorker.run() on a loopback listener: a response far larger than the socket buffers, produced four ways
+    (Content-Length iterable, chunked iterable, write(), file wrapper), as the FIRST and as the SECOND request of a kept-alive
+    connection, read by a client that pauses before it reads.  The body on the wire must be exactly the application's output.
+    -> list of failures"""
+    import hashlib
+    import tempfile
+    import time
+    import lib_gthread_real as G
+    block = bytes((i * 13 + 5) % 253 for i in range(65536))
+    nblocks = 160                                   # 10 MiB
+    total = len(block) * nblocks
+    h = hashlib.sha1()
+    for _ in range(nblocks):
+        h.update(block)
+    digest = h.hexdigest()
+    tmp = tempfile.NamedTemporaryFile(prefix="c02-big-", dir=str(vlib.VERIF / ".build"))
+    for _ in range(nblocks):
+        tmp.write(block)
+    tmp.flush()
+
+    def app(environ, start_response):
+        path = environ["PATH_INFO"]
+        if path == "/small":
+            start_response("200 OK", [("Content-Length", "2")])
+            return [b"ok"]
+        if path == "/big-cl":
+            start_response("200 OK", [("Content-Length", str(total))])
+            return (block for _ in range(nblocks))
+        if path == "/big-chunked":
+            start_response("200 OK", [("Content-Type", "application/octet-stream")])
+            return (block for _ in range(nblocks))
+        if path == "/big-write":
+            write = start_response("200 OK", [("Content-Length", str(total))])
+            for _ in range(nblocks):
+                write(block)
+            return []
+        if path == "/big-file":
+            start_response("200 OK", [("Content-Length", str(total))])
+            return environ["wsgi.file_wrapper"](open(tmp.name, "rb"), 65536)
+        start_response("404 Not Found", [("Content-Length", "0")])
+        return []
+    fails = []
+    try:
+        with G.RealGthread(app, threads=2, keepalive=5) as srv:
+            for path in ("/big-cl", "/big-chunked", "/big-write", "/big-file"):
+                for second in (False, True):
+                    c = srv.connect(timeout=20)
+                    what = "%s as the %s request of a connection" % (path, "second" if second else "first")
+                    try:
+                        if second:
+                            c.sendall(b"GET /small HTTP/1.1\r\nHost: x\r\n\r\n")
+                            st, hd, body, complete, err = G.read_response(c, 8)
+                            if st != 200 or body != b"ok":
+                                fails.append("%s: the first (small) request was not answered: %r %r" % (what, st, body[:40]))
+                                continue
+                            time.sleep(0.2)
+                        c.sendall(("GET %s HTTP/1.1\r\nHost: x\r\n\r\n" % path).encode())
+                        time.sleep(0.6)            # the send buffers fill up before the client reads
+                        st, hd, body, complete, err = G.read_response(c, 30)
+                        if st != 200 or not complete or len(body) != total or hashlib.sha1(body).hexdigest() != digest:
+                            fails.append("%s: the application produced %d bytes, the client received status %r, %d body bytes, %s%s"
+                                         % (what, total, st, len(body), "complete framing" if complete else "framing CUT SHORT",
+                                            (" (%s)" % err) if err else ""))
+                    except OSError as e:
+                        fails.append("%s: %s" % (what, type(e).__name__))
+                    finally:
+                        c.close()
+    finally:
+        tmp.close()
+    return fails
+
+
 def run(ctx):
     ok = ctx.build()
     patched_sendfile_layer(ctx)
+    rf = real_gthread_big_responses()
+    ctx.count_case(("real-gthread-big",), True)
+    ctx.hist("real_gthread_big", "4 ways x first / second request of a connection")
+    ctx.log("real gthread run(): 10 MiB responses to a client that pauses before reading: %d failures" % len(rf))
+    for f in rf[:2]:
+        ctx.violation("real gthread worker: " + f, {"kind": "real-gthread-big"})
     n_rand = 2300 if ctx.quick() else 45000
     cases = fixed_cases()
     for i in range(n_rand):
@@ -776,6 +855,10 @@ def search(ctx, seeds):
 
 
 def replay(rep):
+    if rep.get("kind") == "real-gthread-big":
+        fs = real_gthread_big_responses()
+        print("failures:", fs)
+        return 1 if fs else 0
     if rep.get("kind") == "eventlet-sendfile":
         class C:
             extra = {}
